@@ -308,11 +308,12 @@ func (u *Union) optMerge(mode Mode, req Require) (Cost, Cost, *unionApproach) {
 				&unionApproach{cols: req.cols, strat: unionMerge, req1: mr, req2: mr}
 		}
 	}
-	// Special case: if both sources have empty keys, allow unordered merge
-	keys1 := u.source1.Keys()
-	keys2 := u.source2.Keys()
-	if isEmptyKey(keys1) && isEmptyKey(keys2) {
-		// With empty keys, each source has at most 1 row, so union has at most 2 rows.
+	// Special case: if both sources are single rows, allow unordered merge.
+	// Requires fastSingle rather than just an empty key
+	// because the sources are optimized with no requirement
+	// but still get the Select's that the union gets.
+	if u.source1.fastSingle() && u.source2.fastSingle() {
+		// Each source has at most 1 row, so union has at most 2 rows.
 		// The merge will compare using allCols, which must satisfy the req.
 		allCols := u.allCols
 		if req.SatisfiedByWithFixed(allCols, u.source1.Fixed()) &&
